@@ -91,7 +91,7 @@ def path_provenance(m, q, call):
     return out or [(None, None)]
 
 
-def r1_read_roles(repo=None, rid="C20.R1", prefixes=None):
+def r1_read_roles(repo=None, rid="C20.R1", prefixes=None, stop_modules=()):
     r = Rule(rid, "read-only roles (readers, listings, time helpers) have no path to a file-system mutator (effects)")
     g = pycalls.Graph(repo)
     starts = read_entry_points(g)
@@ -99,6 +99,11 @@ def r1_read_roles(repo=None, rid="C20.R1", prefixes=None):
         starts = [s for s in starts if s.startswith(prefixes)]
     if len(starts) < (20 if prefixes else 50):
         raise AnalysisError("only %d read entry points found" % len(starts))
+    if stop_modules:
+        # do not follow calls into these modules (their read roles are decided under another property)
+        for k in list(g.edges):
+            g.edges[k] = [(c, t) for c, t in g.edges[k] if t.split(":")[0] not in stop_modules]
+            g.imprecise[k] = [(c, [t for t in ts if t.split(":")[0] not in stop_modules]) for c, ts in g.imprecise[k]]
     prev = g.reachable(starts, use_imprecise=False)
     prev_all = g.reachable(starts, use_imprecise=True)
     n_mut = 0
